@@ -3,7 +3,7 @@
    error at coefficient 0 — for all 2N values of p, every n (n > N included), every test polynomial. *)
 From Coq Require Import ZArith Lia List Bool.
 From TV Require Import Base.Int32 Base.Sums Ring.NegaRing Model.Numeric Model.Lwe Model.Poly Model.Tlwe Model.Decomp Model.Tgsw Model.KeySwitch
-  Model.Bootstrap Proofs.Lwe Proofs.Poly Proofs.Tlwe Proofs.Tgsw Proofs.BlindRotate Proofs.Bootstrap Proofs.Ledger Proofs.Numeric.
+  Model.Bootstrap Proofs.Lwe Proofs.Poly Proofs.Tlwe Proofs.Tgsw Proofs.BlindRotate Proofs.Bootstrap Proofs.Ledger Proofs.Numeric Proofs.Digits Proofs.KeySwitch.
 Import ListNotations.
 Local Open Scope Z_scope.
 
@@ -46,9 +46,12 @@ Lemma Forall2_concat_map {A} (R : Z -> Z -> Prop) (f g : A -> list Z) (xs : list
   Forall2 R (concat (map f xs)) (concat (map g xs)).
 Proof. intro H. induction xs as [|x xs IH]; cbn [map concat]; [constructor|]. apply Forall2_app; [apply H|exact IH]. Qed.
 
+Lemma ext_mask_length c j : wf_tsample N k c -> length (concat (map (fun a => ext_checked a j) (removelast c))) = (k * N)%nat.
+Proof. intros [Hl Hf]. assert (Hm : length (removelast c) = k) by (rewrite removelast_len; lia). rewrite <- Hm. clear.
+  induction (removelast c) as [|a m IH]; [reflexivity|]. cbn [map concat length]. rewrite app_length, IH. unfold ext_checked. rewrite map_length, seq_length. lia. Qed.
 Theorem tlwe_extract_phase c j : (j < N)%nat -> wf_tsample N k c ->
-  exists smp, tlwe_extract c (Z.of_nat j) = Some smp /\ eqm32 (lwe_phase (tlwe_extract_key key) smp) (PH c j).
-Proof. intros Hj Hc. eexists. split; [apply tlwe_extract_explicit; assumption|].
+  exists smp, tlwe_extract c (Z.of_nat j) = Some smp /\ length (fst smp) = (k * N)%nat /\ eqm32 (lwe_phase (tlwe_extract_key key) smp) (PH c j).
+Proof. intros Hj Hc. eexists. split; [apply tlwe_extract_explicit; assumption|]. split; [cbn [fst]; apply ext_mask_length, Hc|].
   rewrite (lwe_phase_congr _ _ (fst (tlwe_extract_spec N c j)) _ (snd (tlwe_extract_spec N c j))).
   - replace (fst (tlwe_extract_spec N c j), snd (tlwe_extract_spec N c j)) with (tlwe_extract_spec N c j) by (destruct (tlwe_extract_spec N c j); reflexivity).
     rewrite (extract_phase N k key c j Npos Hj Hc Hkey). eapply eqm32_trans; [apply w32_eqm|].
@@ -83,14 +86,14 @@ Proof. intro H. unfold tlwe_trivial. rewrite PHv_app. unfold lenN in H. rewrite 
 (* ---- C04: blind rotate and extract ---- *)
 Theorem bre_phase bk ss beta : good_key N key k l B bk ss beta -> 0 <= beta ->
   forall (bara : list nat) (barb : nat) v, length bara = length bk -> Forall (fun a => (a < 2 * N)%nat) bara -> (barb < 2 * N)%nat -> lenN N v ->
-  exists smp e0, blind_rotate_extract l B k v bk (Z.of_nat barb) (map Z.of_nat bara) = Some smp /\
+  exists smp e0, blind_rotate_extract l B k v bk (Z.of_nat barb) (map Z.of_nat bara) = Some smp /\ length (fst smp) = (k * N)%nat /\
     eqm32 (lwe_phase (tlwe_extract_key key) smp) (Shn N (expo bara ss + (2 * N - barb)) (ofl v) 0%nat + e0) /\
     Z.abs e0 <= steps bara * beta.
 Proof. intros HG Hbeta bara barb v Hl Hb Hbb Hv. unfold blind_rotate_extract.
   destruct (rotated_testvect_shift v barb Hv Hbb) as (tv & -> & Htv & Hsh).
   destruct (blind_rotate_phase N Npos key k Hkey l B bk ss beta HG Hbeta bara (tlwe_trivial k tv) Hl Hb (trivial_wf tv Htv)) as (accf & err & -> & Hw & Hp & He).
-  destruct (tlwe_extract_phase accf 0 Npos Hw) as (smp & Hx & Hph). change (Z.of_nat 0) with 0 in Hx. rewrite Hx.
-  exists smp, (err 0%nat). split; [reflexivity|]. split; [|apply He, Npos].
+  destruct (tlwe_extract_phase accf 0 Npos Hw) as (smp & Hx & Hlen & Hph). change (Z.of_nat 0) with 0 in Hx. rewrite Hx.
+  exists smp, (err 0%nat). split; [reflexivity|]. split; [exact Hlen|]. split; [|apply He, Npos].
   eapply eqm32_trans; [exact Hph|]. eapply eqm32_trans; [apply (Hp 0%nat Npos)|]. unfold vadd. apply eqm32_add; [|apply eqm32_refl].
   assert (H1 : Shn N (expo bara ss) (PH (tlwe_trivial k tv)) ~ Shn N (expo bara ss) (Shn N (2 * N - barb) (ofl v))).
   { apply (Shn_eqm N Npos). eapply eqNm_trans; [apply trivial_phase, Htv|exact Hsh]. }
@@ -152,7 +155,7 @@ Lemma steps_le_length : forall bara : list nat, steps bara <= Z.of_nat (length b
 Proof. induction bara as [|a bara IH]; cbn [steps length]; [lia|]. rewrite Nat2Z.inj_succ. destruct (Nat.eqb a 0); lia. Qed.
 
 Theorem bootstrap_woKS_phase bk ss beta mu x : good_key N key k l B bk ss beta -> 0 <= beta -> length (fst x) = length bk ->
-  exists smp e0, bootstrap_woKS true l B k N bk mu x = Some smp /\
+  exists smp e0, bootstrap_woKS true l B k N bk mu x = Some smp /\ length (fst smp) = (k * N)%nat /\
     eqm32 (lwe_phase (tlwe_extract_key key) smp) ((if rot_exponent N ss x <? Z.of_nat N then mu else w32 (- mu)) + e0) /\
     Z.abs e0 <= Z.of_nat (length bk) * beta.
 Proof. intros HG Hbeta Hlen. destruct (good_key_bits bk ss beta HG) as [Hbits Hls].
@@ -167,8 +170,8 @@ Proof. intros HG Hbeta Hlen. destruct (good_key_bits bk ss beta HG) as [Hbits Hl
   assert (Hbr : Forall (fun a => (a < 2 * N)%nat) bara).
   { unfold bara. apply Forall_forall. intros a Hin. apply in_map_iff in Hin as (z & <- & _). pose proof (msf_range z).  lia. }
   assert (Hbb : (barb < 2 * N)%nat) by (pose proof (msf_range (snd x));  lia).
-  destruct (bre_phase N Npos key k Hkey l B bk ss beta HG Hbeta bara barb (repeat mu N) Hbl Hbr Hbb ltac:(unfold lenN; apply repeat_length)) as (smp & e0 & Hr & Hp & He).
-  exists smp, e0. split; [exact Hr|]. split.
+  destruct (bre_phase N Npos key k Hkey l B bk ss beta HG Hbeta bara barb (repeat mu N) Hbl Hbr Hbb ltac:(unfold lenN; apply repeat_length)) as (smp & e0 & Hr & Hsl & Hp & He).
+  exists smp, e0. split; [exact Hr|]. split; [exact Hsl|]. split.
   - eapply eqm32_trans; [exact Hp|]. apply eqm32_add; [|apply eqm32_refl].
     eapply eqm32_trans; [apply (Shn_coeff0_anti N Npos (repeat mu N) _ ltac:(unfold lenN; apply repeat_length))|].
     assert (Hexp : (- Z.of_nat (expo bara ss + (2 * N - barb))) mod (2 * Z.of_nat N) = rot_exponent N ss x).
@@ -178,4 +181,35 @@ Proof. intros HG Hbeta Hlen. destruct (good_key_bits bk ss beta HG) as [Hbits Hl
     rewrite Hexp. rewrite (anti_constant mu N (rot_exponent N ss x) (rot_exponent_range N ss x Npos)). apply eqm32_refl.
   - eapply Z.le_trans; [exact He|]. apply Zmult_le_compat_r; [|exact Hbeta].
     rewrite <- Hbl. apply steps_le_length. Qed.
+
+(* with the final key switch (C08): the same message, plus the rounding of the extracted mask to t*basebit bits and the noise of
+   the key-switching rows actually used *)
+Theorem bootstrap_phase bk ss beta mu x (ksraw : list sample) (t : nat) (b : Z) (lkey : list Z) (nout : nat) (e : nat -> nat -> Z -> Z) :
+  good_key N key k l B bk ss beta -> 0 <= beta -> length (fst x) = length bk -> valid_ks t b ->
+  (forall i j h, (i < k * N)%nat -> (j < t)%nat -> 1 <= h < pow2 b ->
+     exists row, ks_get ksraw (Z.of_nat t) (pow2 b) i j h = Some row /\ length (fst row) = nout /\
+                 eqm32 (lwe_phase lkey row) (h * nth i (tlwe_extract_key key) 0 * pow2 (shp 32 b j) + e i j h)) ->
+  exists (res u : sample) e0, bootstrap l B k N bk ksraw t b nout mu x = Some res /\ length (fst res) = nout /\ Z.abs e0 <= Z.of_nat (length bk) * beta /\
+    eqm32 (lwe_phase lkey res)
+          ((if rot_exponent N ss x <? Z.of_nat N then mu else w32 (- mu)) + e0
+           + zsum (k * N) (fun i => nth i (tlwe_extract_key key) 0 * (nth i (fst u) 0 - round_tb (Z.of_nat t) b (nth i (fst u) 0)))
+           - zsum (k * N) (fun i => zsum t (ee b e i (aibar (Z.of_nat t) b (nth i (fst u) 0))))).
+Proof. intros HG Hbeta Hlen Vks Hrows. unfold bootstrap.
+  destruct (bootstrap_woKS_phase bk ss beta mu x HG Hbeta Hlen) as (u & e0 & -> & Hul & Hp & He).
+  destruct (keyswitch_phase ksraw t b Vks lkey nout (k * N)%nat (fun i => nth i (tlwe_extract_key key) 0) e Hrows u Hul) as (res & -> & Hrl & Hph).
+  exists res, u, e0. split; [reflexivity|]. split; [exact Hrl|]. split; [exact He|].
+  eapply eqm32_trans; [exact Hph|].
+  (* b_u - sum s_i round(a_i) = (b_u - sum s_i a_i) + sum s_i (a_i - round a_i) *)
+  rewrite lwe_phase_spec in Hp. pose proof (eqm32_trans _ _ _ (eqm32_sym _ _ (w32_eqm _)) Hp) as Hp'.
+  assert (Hdot : dot (fst u) (tlwe_extract_key key) = zsum (k * N) (fun i => nth i (fst u) 0 * nth i (tlwe_extract_key key) 0)).
+  { rewrite dot_as_zsum, Hul. reflexivity. }
+  rewrite Hdot in Hp'.
+  set (Z1 := zsum (k * N) (fun i => nth i (tlwe_extract_key key) 0 * round_tb (Z.of_nat t) b (nth i (fst u) 0))).
+  set (Z3 := zsum (k * N) (fun i => zsum t (ee b e i (aibar (Z.of_nat t) b (nth i (fst u) 0))))).
+  rewrite (zsum_ext (k * N) (fun i => nth i (tlwe_extract_key key) 0 * (nth i (fst u) 0 - round_tb (Z.of_nat t) b (nth i (fst u) 0)))
+                    (fun i => nth i (fst u) 0 * nth i (tlwe_extract_key key) 0 - nth i (tlwe_extract_key key) 0 * round_tb (Z.of_nat t) b (nth i (fst u) 0))) by (intros; ring).
+  rewrite zsum_sub. fold Z1.
+  set (D := zsum (k * N) (fun i => nth i (fst u) 0 * nth i (tlwe_extract_key key) 0)) in *.
+  replace (snd u - Z1 - Z3) with ((snd u - D) + (D - Z1) - Z3) by ring.
+  apply eqm32_sub; [|apply eqm32_refl]. apply eqm32_add; [exact Hp'|apply eqm32_refl]. Qed.
 End BW.
